@@ -38,12 +38,14 @@ InTree(j) ==
       [] j.k = "str"  -> S(j.v)
       [] j.k = "bool" -> B(j.v)
       [] j.k = "nil"  -> Nil
+      [] j.k = "pkgunits" -> PU(j.v)
 
 InOpt(o)   == IF o.some THEN Some(o.v) ELSE None
 InDisp(o)  == IF o.some THEN Some(Disp(InOpt(o.v.name), InOpt(o.v.description), InOpt(o.v.icon))) ELSE None
 InUnit(u)  == Unit(u.ss, u.sp, u.ls, u.lp)
-InUnits(o) == IF o.some THEN Some(Units(InUnit(o.v.base), {[m |-> x.m, unit |-> InUnit(x.unit)] : x \in Range(o.v.mults)}))
-              ELSE None
+InUnits(o) == IF ~o.some THEN None
+              ELSE IF o.v.pkg # "" THEN Some(PkgUnits(o.v.pkg))
+              ELSE Some(Units(InUnit(o.v.base), {[m |-> x.m, unit |-> InUnit(x.unit)] : x \in Range(o.v.mults)}))
 InAtom(a)  == IF a.k = "str" THEN S(a.v) ELSE N(a.v)
 InVals(q)  == {EV(InAtom(x.v), InDisp(x.display)) : x \in Range(q)}
 
